@@ -168,7 +168,16 @@ class Hier:
         # sub suites
         if depth < 2:
             k = rng.randint(0, 3 if depth == 0 else 2)
-            if k and rng.chance(0.35):
+            if k and rng.chance(0.2):
+                # a glob that matches DIRECTORIES, each with a default suite file (a directory listed in [suites] stands for
+                # its exactly.suite, also when it is a glob that names it)
+                n0 = len(self.suites)
+                subs = [d / ('gd%d_%s' % (n0, x)) / 'exactly.suite' for x in rng.sample(['a', 'b', 'c', 'd'], k)]
+                s['suites'].append('gd%d_?' % n0)
+                self.globbed.append(sorted(subs))
+                for sp in subs:
+                    self._mk_suite(sp, depth + 1)
+            elif k and rng.chance(0.35):
                 # a glob over a group of sub-suites in one directory
                 gd = d / ('g%d' % len(self.suites))
                 subs = [gd / ('%s.suite' % x) for x in rng.sample(['a', 'b', 'c', 'd'], k)]
@@ -289,6 +298,8 @@ class Hier:
             name = line.strip("'")
             if not quoted and any(ch in name for ch in '*?['):
                 ms = list(d.glob(name))
+                if is_suite:
+                    ms = [(m / 'exactly.suite') if m.is_dir() else m for m in ms]
                 return 'RGlob', [ids[m] for m in ms]
             p = pathlib.Path(os.path.normpath(str(d / name)))
             if p.is_file():
